@@ -13,7 +13,7 @@ const char *HARNESS_ID = "C14";
 std::vector<ModeInfo> harness_modes()
 {
 	return {{"gen", 0, "generated texts/trees with non-integers x 4 locale regimes x one-shot/chunked; every parser outcome class; locale state checked around every call"},
-	        {"classes", 20 * 4 * 3, "every outcome class (success, continue, each error code incl. depth/size/utf8/memory) x 4 regimes x {one-shot, split, byte-wise}"}};
+	        {"classes", 24 * 4 * 3, "every outcome class (success, continue, each error code incl. depth/size/utf8/memory) x 4 regimes x {one-shot, split, byte-wise}"}};
 }
 
 namespace {
@@ -206,7 +206,11 @@ static ParseSpec class_spec(int cls)
 	case 16: s.bytes = "[1.5,2.5]"; s.fail_alloc = 0; break;                         // memory (locale duplication fails)
 	case 17: s.bytes = "[1.5,2.5]"; s.fail_alloc = 1; break;                         // memory (second allocation)
 	case 18: s.bytes = "[1.5,2.5]"; s.fail_alloc = 4; break;                         // memory (later allocation)
-	default: s.bytes = "[1.5] x"; s.flags = JSON_TOKENER_STRICT; break;              // strict trailing
+	case 19: s.bytes = "[1.5] x"; s.flags = JSON_TOKENER_STRICT; break;              // strict trailing
+	case 20: s.bytes = "[1.-5]"; break;                                              // malformed float that reaches the conversion
+	case 21: s.bytes = "[-e5]"; break;
+	case 22: s.bytes = "[2.+7,1.5]"; break;
+	default: s.bytes = "[1.5e]"; s.flags = JSON_TOKENER_STRICT; break;               // dangling exponent, strict
 	}
 	return s;
 }
@@ -258,7 +262,7 @@ void run_case(Choices &c, Ctx &ctx)
 	if (ctx.mode == "classes")
 	{
 		uint64_t idx = c.bits(8);
-		int cls = (int)(idx % 20), regime = (int)(idx / 20 % 4), split = (int)(idx / 80);
+		int cls = (int)(idx % 24), regime = (int)(idx / 24 % 4), split = (int)(idx / 96);
 		ParseSpec s = class_spec(cls);
 		size_t n = s.bytes.size() + (s.nul ? 1 : 0);
 		if (split == 1 && n > 3)
